@@ -237,6 +237,43 @@ func govcRaceStress() string {
 	return ""
 }
 
+// govcRaceStressRefCount: the same for KeyedRefCount (references added, released twice, keys removed).
+func govcRaceStressRefCount() string {
+	k := NewKeyedRefCount[string, int](func(key string) (Routine, int) {
+		return func(ctx context.Context) error { <-ctx.Done(); return nil }, 1
+	})
+	ctx, cancel := context.WithCancel(context.Background())
+	defer cancel()
+	k.SetContext(ctx, true)
+	stop := make(chan struct{})
+	done := make(chan struct{}, 8)
+	keys := []string{"a", "b"}
+	for w := 0; w < 4; w++ {
+		go func() {
+			for i := 0; ; i++ {
+				select {
+				case <-stop:
+					done <- struct{}{}
+					return
+				default:
+				}
+				ref, _, _ := k.AddKeyRef(keys[i%2])
+				if i%5 == 0 {
+					k.RemoveKey(keys[i%2])
+				}
+				go ref.Release()
+				ref.Release()
+			}
+		}()
+	}
+	time.Sleep(300 * time.Millisecond)
+	close(stop)
+	for i := 0; i < 4; i++ {
+		<-done
+	}
+	return ""
+}
+
 // govcKeySetModel runs pseudo-random sequences of key-set operations (restricted to the given operations)
 // against the real Keyed and against the key set the property describes, with and without a release delay,
 // with and without a context; it returns the first sequence whose return values or key set differ.
@@ -413,6 +450,8 @@ func TestGovcReplay(t *testing.T) {
 	model := func(ops ...string) func() string { return func() string { return govcKeySetModel(ops) } }
 	var scenarios []func() string
 	switch {
+	case has("KeyedRef") && has("#own.", "#call.holds", "#lock.", "#block.locked"):
+		scenarios = []func() string{govcRaceStressRefCount}
 	case has("#own.", "#call.holds", "#lock.", "#block.locked"):
 		scenarios = []func() string{govcRaceStress}
 	case has("keepretry"):
